@@ -16,6 +16,7 @@ LOOKALIKE_ITEMS = [["mkt_to\u212a", "1"], ["utm_\u212aey", "v"], ["\u017fid", "5
 PER_DOMAIN_ITEMS = [["t", "10s"], ["si", "abc"], ["_rdr", None], ["_rdc", "1"], ["ab_channel", "X"]]   # irrelevant on youtube / facebook only
 KEPT_ITEMS = [["Tag", ""], ["tag", None], ["TAG", "1"], ["id", "42"], ["page", "2"], ["q", "a b"], ["b", "2"], ["a", "1"], ["a", "0"], ["a", None], ["B", "x"], ["é", "ü"], ["x", ""], ["lang", "fr"],
               ["z", "%41"], ["k", "a%20b"], ["y", "a=b"], ["c", "a+b"]]
+WORD_DOMAINS = ["mobile.de", "m.fr", "amp.dev", "www.ck", "m.co.uk", "www2.org", "m.fr.", "mobile.de.", "amp.dev.", "m.co.uk.", "example.com.", "example.co.uk."]
 FRAGMENTS = [None, None, None, "", "section", "top", "!/", "/", "!", "/route/1", "!/tweet", "!hashbang", "a/b", "%2Froute", "x y"]
 
 
@@ -43,6 +44,9 @@ def norm_structs(draw, dirty=False, platform_hosts=False, userinfo=True, lookali
             # 'amp-' is only glued onto plain ASCII labels ('amp-xn--..' is not a meaningful A-label)
             labs[0] = draw(st.sampled_from(["amp-", "AMP-", "amp-amp-"])) + labs[0]
         base = ".".join(labs + [draw(st.sampled_from(G.TLDS))])
+    if draw(st.integers(0, 11)) == 0:
+        # a registrable domain that is itself named like an irrelevant subdomain, also fully qualified (root label)
+        base = draw(st.sampled_from(WORD_DOMAINS))
     host = ".".join(pre + [base])
     if draw(st.integers(0, 5)) == 0:
         up = draw(st.sampled_from([host.upper(), host.title()]))
